@@ -119,3 +119,10 @@ def merge(results):
         if len(out['samples']) < 8:
             out['samples'].extend(r.get('samples', [])[:2])
     return out
+
+
+def fresh_str(s):
+    """An equal but distinct (non-interned) string object - what a mode read from a config file looks like."""
+    if s is None:
+        return None
+    return ''.join(list(s))
